@@ -26,7 +26,7 @@ MANIFEST = dict(
          "h_url/h_docroot, exhaustive small scope incl. NUL + random + mutated corpora, ASan/UBSan) and that the "
          "real server composes them as modelled (e2e, 19 configurations, canary files outside every root, "
          "h1/h2/extended CONNECT, request sequences across follow-symlink contexts with warm stat cache).",
-    note="proof level for the path algorithm and the composition over hand-written models; correspondence-only: "
+    note="X-Sendfile / X-Sendfile2 are modelled together with the status the backend response already carries (xsendfileAt: containment for every status; ops xsfs/xsfs2; e2e CGI setting Status: itself). proof level for the path algorithm and the composition over hand-written models; correspondence-only: "
          "model = C for burl_normalize, host policy, mod_alias/simple_vhost/evhost/userdir/indexfile, X-Sendfile, "
          "WebDAV Destination, symlink walk (differential), response.c glue, stat cache, PATH_INFO, other handlers "
          "(e2e canaries).  Outside: TOCTOU, kernel path resolution, case-insensitive filesystems, config "
